@@ -124,3 +124,182 @@ fn c20_framing_recursive() {
     kani::cover!(crlf, "CRLF");
     kani::cover!(!crlf, "LF");
 }
+
+// ------------------------------------------------------------------------------------------------
+// Sync handle: the operations of the public API reach the state exactly once, with the right
+// arguments, under the state mutex (C15 raw chunks, C01 triggered rotation, C04 flush/shutdown,
+// C18 reopen). The State methods are recorders; what they do is decided in h_state.rs.
+fn rec_mount_next(_s: &mut State, force: bool) -> Result<(), FlexiLoggerError> {
+    vs::cell_inc(10);
+    vs::cell_set(11, force as u64);
+    Ok(())
+}
+fn rec_reopen(_s: &mut State) -> Result<(), std::io::Error> {
+    vs::cell_inc(12);
+    Ok(())
+}
+fn rec_flush(_s: &mut State) -> std::io::Result<()> {
+    vs::cell_inc(13);
+    Ok(())
+}
+fn rec_shutdown(_s: &mut State) {
+    vs::cell_inc(14);
+}
+macro_rules! sh_harness {
+    ($u:literal, fn $name:ident() $body:block) => {
+        #[kani::proof]
+        #[kani::unwind($u)]
+        #[kani::stub(verif_support::reexp::catch_unwind, verif_support::stub_cu)]
+        #[kani::stub(crate::writers::file_log_writer::state::State::write_buffer, rec_write_buffer)]
+        #[kani::stub(crate::writers::file_log_writer::state::State::mount_next_linewriter_if_necessary, rec_mount_next)]
+        #[kani::stub(crate::writers::file_log_writer::state::State::reopen_outputfile, rec_reopen)]
+        #[kani::stub(crate::writers::file_log_writer::state::State::flush, rec_flush)]
+        #[kani::stub(crate::writers::file_log_writer::state::State::shutdown, rec_shutdown)]
+        #[kani::stub(crate::writers::file_log_writer::state::start_sync_flusher, cut_start_sync_flusher)]
+        #[kani::stub(crate::util::eprint_err, stub_eprint_err)]
+        #[kani::stub(crate::util::buffer_with, verif_support::buffer_with_model)]
+        fn $name() $body
+    };
+}
+fn fmt_none(_w: &mut dyn std::io::Write, _now: &mut DeferredNow, _r: &Record) -> std::io::Result<()> {
+    Ok(())
+}
+fn sync_handle() -> StateHandle {
+    let cfg = mk_config(FileSpec::default().directory("d").basename("b").suppress_timestamp(), false, WriteMode::Direct);
+    StateHandle::new_sync(State::new(cfg, None, false), fmt_none)
+}
+// @verif prop=C15,C01 tier=quick timeout=600 bounds=2-raw-chunks-of-symbolic-length<=3-with-symbolic-bytes(all-256-values,incl.-the-control-message-bytes)
+// Raw byte chunks written through the file writer's io::Write path (sync): the concatenation of the chunks is handed to the state unchanged and in order, each byte exactly once, whatever the bytes and lengths (empty chunks included), and the number of bytes accepted is reported.
+sh_harness! { 8,
+fn c15_plain_write_chunks() {
+    plain_write_case::<3>();
+}
+}
+// @verif prop=C15 tier=thorough timeout=900 bounds=2-raw-chunks-of-symbolic-length<=5-with-symbolic-bytes
+// The same for chunks up to 5 bytes (the event log holds 12 bytes).
+sh_harness! { 12,
+fn c15_plain_write_chunks_deep() {
+    plain_write_case::<5>();
+}
+}
+fn plain_write_case<const N: usize>() {
+    vs::link_all();
+    let h = sync_handle();
+    let c1: [u8; N] = kani::any();
+    let c2: [u8; N] = kani::any();
+    let l1: usize = kani::any();
+    let l2: usize = kani::any();
+    kani::assume(l1 <= N && l2 <= N);
+    let r1 = h.plain_write(&c1[..l1]);
+    match &r1 {
+        Ok(n) => assert!(*n == l1),
+        Err(_) => assert!(false, "plain_write failed"),
+    }
+    std::mem::forget(r1);
+    let r2 = h.plain_write(&c2[..l2]);
+    match &r2 {
+        Ok(n) => assert!(*n == l2),
+        Err(_) => assert!(false, "plain_write failed"),
+    }
+    std::mem::forget(r2);
+    // the concatenation arrives unchanged (how many hand-overs carry it is not prescribed)
+    assert!(vs::ev_len() == l1 + l2);
+    let mut i = 0;
+    while i < N {
+        if i < l1 {
+            assert!(vs::ev_get(i) & 0xff == c1[i] as u32);
+        }
+        if i < l2 {
+            assert!(vs::ev_get(l1 + i) & 0xff == c2[i] as u32);
+        }
+        i += 1;
+    }
+    kani::cover!(l1 == 1 && c1[0] == b'F', "one-byte chunk F");
+    kani::cover!(l1 == 0 && l2 == N, "empty chunk first");
+    std::mem::forget(h);
+}
+// @verif prop=C01,C18,C04 tier=quick timeout=600 bounds=one-call-each-of-rotate/reopen_outputfile/flush/shutdown-on-a-sync-handle
+// trigger_rotation reaches the rotation step exactly once and *forced*; reopen, flush and shutdown reach the state exactly once each; none of them hands any bytes to the writer.
+sh_harness! { 8,
+fn c01_handle_forwards_operations() {
+    vs::link_all();
+    let h = sync_handle();
+    let r = h.rotate();
+    assert!(r.is_ok());
+    std::mem::forget(r);
+    assert!(vs::cell_get(10) == 1 && vs::cell_get(11) == 1);
+    let r = h.reopen_outputfile();
+    assert!(r.is_ok());
+    std::mem::forget(r);
+    assert!(vs::cell_get(12) == 1);
+    let r = h.flush();
+    assert!(r.is_ok());
+    std::mem::forget(r);
+    assert!(vs::cell_get(13) == 1);
+    h.shutdown();
+    assert!(vs::cell_get(14) == 1);
+    assert!(vs::cell_get(0) == 0 && vs::cell_get(10) == 1 && vs::cell_get(12) == 1 && vs::cell_get(13) == 1);
+    kani::cover!(true, "executed");
+    std::mem::forget(h);
+}
+}
+
+// ------------------------------------------------------------------------------------------------
+// C18: StateHandle::reset (reset_flw). The new state comes from the builder (try_build_state is a
+// contract stub: a fresh State whose file spec carries the basename "N"); observed through the
+// public `config()`.
+fn stub_try_build_state(_b: &crate::writers::FileLogWriterBuilder) -> Result<State, FlexiLoggerError> {
+    vs::cell_inc(15);
+    let cfg = mk_config(FileSpec::default().directory("d").basename("N").suppress_timestamp(), false, WriteMode::Direct);
+    Ok(State::new(cfg, None, false))
+}
+fn basename_first_byte(h: &StateHandle) -> u8 {
+    match h.config() {
+        Ok(c) => {
+            let p = c.file_spec.as_pathbuf(None);
+            use std::os::unix::ffi::OsStrExt;
+            let b = p.as_os_str().as_bytes();
+            // "d/<basename>.log": byte 2 is the first byte of the basename
+            let r = if b.len() > 2 { b[2] } else { 0 };
+            std::mem::forget(p);
+            std::mem::forget(c);
+            r
+        }
+        Err(e) => {
+            std::mem::forget(e);
+            0
+        }
+    }
+}
+// @verif prop=C18 tier=probe timeout=600 bounds=sync-handle,reset-with-a-builder-of-the-same-write-mode-/-of-another-write-mode(symbolic)
+// reset_flw: with a builder of the same write mode the state is replaced by the newly built one (subsequent records go to the newly specified file); with a builder of another write mode the call is rejected and the state stays what it was.
+#[kani::proof]
+#[kani::unwind(8)]
+#[kani::stub(verif_support::reexp::catch_unwind, verif_support::stub_cu)]
+#[kani::stub(crate::writers::file_log_writer::state::start_sync_flusher, cut_start_sync_flusher)]
+#[kani::stub(crate::util::eprint_err, stub_eprint_err)]
+#[kani::stub(crate::writers::FileLogWriterBuilder::try_build_state, stub_try_build_state)]
+fn c18_reset_replaces_state() {
+    vs::link_all();
+    let h = sync_handle(); // basename "b", WriteMode::Direct
+    assert!(basename_first_byte(&h) == b'b');
+    let other_mode: bool = kani::any();
+    let mut b = crate::writers::FileLogWriter::builder(FileSpec::default().directory("d").basename("x").suppress_timestamp());
+    if other_mode {
+        b = b.write_mode(WriteMode::BufferDontFlush);
+    }
+    let r = h.reset(&b);
+    let ok = r.is_ok();
+    std::mem::forget(r);
+    assert!(ok == !other_mode);
+    if ok {
+        assert!(vs::cell_get(15) == 1);
+        assert!(basename_first_byte(&h) == b'N');
+    } else {
+        assert!(basename_first_byte(&h) == b'b');
+    }
+    kani::cover!(ok, "reset accepted");
+    kani::cover!(!ok, "reset rejected: other write mode");
+    std::mem::forget(b);
+    std::mem::forget(h);
+}
